@@ -7,7 +7,7 @@
    The guards loess_rejects / spline_*_rejects / pf_* and the kernel skeleton list come from
    gen/GenKernels.v, regenerated from /repo on every run. *)
 From Coq Require Import ZArith List Bool String.
-From PB Require Import lib.PySlice C05.Mon C05.Model C05.Callers C05.Sigs gen.GenKernels C05.Final C05.CallerProofs.
+From PB Require Import lib.PySlice C05.PyLen C05.Mon C05.Model C05.Callers C05.Sigs gen.GenKernels C05.Final C05.CallerProofs.
 Import ListNotations.
 Open Scope Z_scope.
 
@@ -127,13 +127,13 @@ Theorem C05_design_public_safe : forall n num_knots degree (o : list bool),
 Proof. exact design_public_final. Qed.
 Print Assumptions C05_design_public_safe.
 
-(* sections guard/default + half-window clamp (from the source) => first half window >= 1 and every kernel call safe *)
-Theorem C05_peak_filling_public_safe : forall size sections half_win pads h (o : list bool),
+(* sections guard/default + half-window clamp + len(y_truncated) (all from the source) => first half window >= 1 and every kernel call safe *)
+Theorem C05_peak_filling_public_safe : forall size sections half_win left_pad right_pad h (o : list bool),
   (pf_sections_rejects sections size = false \/ (sections = pf_default_sections size /\ 10 <= size)) ->
-  1 <= half_win -> 0 <= pads ->
+  1 <= half_win -> 0 <= left_pad <= 1 -> 0 <= right_pad <= 1 ->
   (* h: any entry of the schedule; the first one is pf_half_win half_win sections *)
   (h = pf_half_win half_win sections \/ 1 <= h) ->
-  1 <= h /\ all_okb (logof (pf_kernel_call sections pads h o)) = true.
+  1 <= h /\ all_okb (logof (pf_kernel_call2 sections left_pad right_pad h o)) = true.
 Proof. exact peak_filling_public_final. Qed.
 Print Assumptions C05_peak_filling_public_safe.
 
@@ -163,6 +163,41 @@ Theorem C05_ok_means : forall e,
   end.
 Proof. exact ok_means. Qed.
 Print Assumptions C05_ok_means.
+
+(* _quadratic_bezier_spline: indices strictly increasing inside the data (what np.flatnonzero returns); every np.argmin result is an arbitrary oracle-chosen value in [0, slice length) *)
+Theorem C05_bezier_safe : forall nx ny indices (o : list bool),
+  (forall k, 0 <= k < lenz indices ->
+     0 <= nthz indices k 0 < nx /\ (k + 1 < lenz indices -> nthz indices k 0 < nthz indices (k + 1) 0)) ->
+  all_okb (logof (bezier nx ny indices o)) = true.
+Proof. exact bezier_final. Qed.
+Print Assumptions C05_bezier_safe.
+
+(* corner_cutting hands (self.x, y, np.flatnonzero(mask)) to the kernel *)
+Theorem C05_corner_cutting_public_safe : forall n indices (o : list bool),
+  (forall k, 0 <= k < lenz indices ->
+     0 <= nthz indices k 0 < n /\ (k + 1 < lenz indices -> nthz indices k 0 < nthz indices (k + 1) 0)) ->
+  all_okb (logof (corner_cutting_call n indices o)) = true.
+Proof. exact corner_cutting_public_final. Qed.
+Print Assumptions C05_corner_cutting_public_safe.
+
+(* the array lengths the translator derived from the np.concatenate/linspace/repeat/percentile, np.pad and np.empty calls of the CURRENT source are the ones the kernel preconditions need (holds for every half window, also half_window >= n) *)
+Theorem C05_numpy_lengths :   (forall penalized num_knots degree, spline_knots_len penalized num_knots degree = num_knots + 2 * degree) /\
+  (forall n half_window, prs_padded_len n half_window = n + 2 * half_window) /\
+  (forall sections left_pad right_pad, pf_y_len sections left_pad right_pad = sections + left_pad + right_pad).
+Proof. exact np_lengths_final. Qed.
+Print Assumptions C05_numpy_lengths.
+
+(* _find_peak_segments: for EVERY boolean mask all (start, end) pairs satisfy 0 <= start <= end <= N-1 *)
+Theorem C05_find_peak_segments_ok : forall (mask : list bool),
+  Forall (fun se => 0 <= fst se /\ fst se <= snd se /\ snd se <= lenz mask - 1) (find_peak_segments mask).
+Proof. exact find_peak_segments_final. Qed.
+Print Assumptions C05_find_peak_segments_ok.
+
+(* _averaged_interp (std_distribution, fastchrom, ...): every _interp_inplace call gets non-empty slices of equal length, for every mask *)
+Theorem C05_averaged_interp_safe : forall (mask : list bool) (o : list bool),
+  all_okb (logof (averaged_interp mask o)) = true.
+Proof. exact averaged_interp_final. Qed.
+Print Assumptions C05_averaged_interp_safe.
 
 Example C05_loess_guard_nonvacuous : loess_rejects 4 1 4 = false /\ 0 <= 1.
 Proof. exact loess_guard_nonvacuous. Qed.
